@@ -205,6 +205,23 @@ CLAIMED.update({
               "5/C19", "partial: the top-level KlattGrid reader (section discovery by keyword, container tiers) and _cleanNumericValues are evaluated, not modelled; repr()/float() are trusted (numbers are tokens)."),
 })
 
+CLAIMED.update({
+    "C20": _c("Proof: Props/C20.v shows, for any element type and filter function, that the windowed filter keeps the length, that "
+              "element x is the function of its window when padding is on or the window fits and is left unchanged otherwise, that "
+              "the window is element x with its floor(window/2) neighbours on either side of the edge-extended series (the source's "
+              "lastKnownLargeIndex bookkeeping is edge clamping), that the window's median is the middle of the sorted window and a "
+              "value of the window; that filterTimeSeriesData keeps rows, order and the other columns; the detectPitchErrors "
+              "criterion; the listing-row clauses (header, skip, substitute); and over the reals that z-normalisation keeps length "
+              "and rank order and yields mean 0 and sample standard deviation 1, and that rms / population deviation are the "
+              "non-negative roots of their definitions.  medianFilter, filterTimeSeriesData, detectPitchErrors and loadTimeSeriesData "
+              "(on real files) are compared with the models and with the definitions inside Coq; znormalizeData, rms and "
+              "getPitchMeasures are judged against exact rational arithmetic (relative tolerance 1e-9).",
+              "Coq proof (loop invariant for the index bookkeeping, list induction; Reals for the statistics) + in-Coq differential correspondence and oracle + exact-arithmetic evaluation",
+              "5/C20", "The z-normalisation / rms / deviation theorems depend on the standard library's real-number axioms "
+              "(ClassicalDedekindReals.sig_forall_dec, sig_not_dec, FunctionalExtensionality.functional_extensionality_dep); binary64 "
+              "rounding of the statistics is evaluated with a tolerance, not proved."),
+})
+
 PENDING = {}
 
 
